@@ -60,6 +60,11 @@ def setOp (o : Operation) (k : String) (v : List Str) : Operation :=
 def labelsOf (t : String) : List (Str × Str) :=
   (decList t).map fun e => ((kv e).1.toList, (kv e).2.toList)
 
+def refsOf (t : String) : List (Str × Str × Str × Str) :=
+  (decList t).map fun e =>
+    let q := splitOn '|' e.toList
+    (q.headD [], (q.drop 1).headD [], (q.drop 2).headD [], (q.drop 3).headD [])
+
 def actionOf : String → Action
   | "DENY" => .deny | "AUDIT" => .audit | "CUSTOM" => .custom | _ => .allow
 
@@ -166,6 +171,11 @@ def parseReq (toks : List String) : Request :=
     dstIP := natTok ((get "dip").getD "0"), dstPort := natTok ((get "dport").getD "0"),
     sni := gs "sni", peer := peer, http := http, metadata := metas }
 
+def hasRule (s : DState) : Bool :=
+  match s.policies.getLast? with
+  | some p => !p.rules.isEmpty
+  | none => false
+
 def decTok (b : Bool) : String := if b then "allow" else "deny"
 
 def step (s : DState) (toks : List String) : DState × String :=
@@ -176,27 +186,32 @@ def step (s : DState) (toks : List String) : DState × String :=
     let names := (L provs).map fun n => if hasPrefix "http:".toList n then n.drop 5 else n
     let https := ((L provs).filter fun n => hasPrefix "http:".toList n).map (·.drop 5)
     ({ s with custom := { providers := names, multi := tokBool multi, httpProviders := https } }, "ok")
-  | ["wl", root, ns, labels] =>
+  | "wl" :: root :: ns :: labels :: _ =>
     ({ s with wl := { rootNs := (dec root).toList, ns := (dec ns).toList, labels := labelsOf labels } }, "ok")
   | "pol" :: a :: ns :: name :: dry :: prov :: rest =>
     ({ s with policies := s.policies ++ [{ ns := (dec ns).toList, name := (dec name).toList, action := actionOf a,
                                            dryRun := isDryRun (if dry == "0" then none else some (dec dry).toList), provider := (dec prov).toList,
-                                           selector := labelsOf (rest.headD "-"), rules := [] }] }, "ok")
+                                           selector := labelsOf (rest.headD "-"),
+                                           targetRefs := refsOf ((rest.drop 1).headD "-"), rules := [] }] }, "ok")
   | ["rule"] =>
+    if s.policies.isEmpty then (s, "bad-op") else
     ({ s with policies := modifyLast (fun p => { p with rules := p.rules ++ [{}] }) s.policies }, "ok")
   | "from" :: fields =>
+    if !(hasRule s) then (s, "bad-op") else
     let src := fields.foldl (fun acc t => setSrc acc (kv t).1 (L (kv t).2)) ({} : Source)
     ({ s with policies := modifyLast (fun p => { p with rules := modifyLast (fun r => { r with froms := r.froms ++ [src] }) p.rules }) s.policies }, "ok")
   | "to" :: fields =>
+    if !(hasRule s) then (s, "bad-op") else
     let op := fields.foldl (fun acc t => setOp acc (kv t).1 (L (kv t).2)) ({} : Operation)
     ({ s with policies := modifyLast (fun p => { p with rules := modifyLast (fun r => { r with tos := r.tos ++ [op] }) p.rules }) s.policies }, "ok")
   | ["when", key, vs, nvs] =>
+    if !(hasRule s) then (s, "bad-op") else
     let c : Condition := ⟨(dec key).toList, L vs, L nvs⟩
     ({ s with policies := modifyLast (fun p => { p with rules := modifyLast (fun r => { r with whens := r.whens ++ [c] }) p.rules }) s.policies }, "ok")
-  | ["build", kind, auth] =>
+  | "build" :: kind :: auth :: rest =>
     let o : BuildOpts := { bundle := s.bundle, forTCP := kind != "http", useAuth := tokBool auth,
                            tcpRulesAsHTTP := kind == "tcphttp" }
-    let fs := compileAll s.wl o s.custom s.policies
+    let fs := forListenerClass (kind == "http" && rest.headD "in" == "out") (compileAll s.wl o s.custom s.policies)
     ({ s with opts := o, filters := fs }, showFilters fs)
   | "req" :: attrs =>
     let r := parseReq attrs
